@@ -54,7 +54,10 @@ def support(x, y):
 def o_generator(a):
     """the statement on a k = 1 generator: monotone ppf, end points, cdf∘ppf = id, node masses, bounded sampling"""
     x, y = numpy.array(a['x']), numpy.array(a['y'])
+    if a.get('dtype'):                   # grids of channel numbers, pixel indices, single-precision columns: the same values in another type
+        x = x.astype(a['dtype'])
     gen = make(x, y, 1)
+    x = x.astype(float)
     u = numpy.linspace(0., 1., 1001)
     p = gen.ppf(u)
     bad = []
@@ -120,12 +123,25 @@ def o_aux(a):
     rel = lambda aa: (numpy.asarray(aa, dtype=float) - off) / span
     scale = a.get('scale', 1.)       # a density need not be normalised: fluxes in physical units are 1e-9, 1e-12 …
     pdf = lambda xx, aa: scale * ((1. + rel(aa)) * numpy.exp(-0.5 * ((xx - 3. - 4. * rel(aa)) / (1. + rel(aa))) ** 2) + 0.05)
+    kx, ky = a.get('kx', 1), a.get('ky', 1)
+    if a.get('coarse'):
+        x = numpy.array([0., 0.5, 1., 2., 3., 4., 5., 6., 7., 8.5, 10.])
+        nx = len(x)
     if a.get('table'):
         table = numpy.array([[float(pdf(xi, ai)) for ai in aux] for xi in x])          # documented layout: (len(rv), len(aux))
-        gen = xUnivariateAuxGenerator(x, aux, table, kx=1, ky=1)
+        gen = xUnivariateAuxGenerator(x, aux, table, kx=kx, ky=ky)
     else:
-        gen = xUnivariateAuxGenerator(x, aux, pdf, kx=1, ky=1)
+        gen = xUnivariateAuxGenerator(x, aux, pdf, kx=kx, ky=ky)
     bad = []
+    # the quantile function is the inverse of the cumulative of the slice the generator itself hands out, whatever the spline orders
+    q = numpy.array(gen.ppf.x)
+    for av in aux:
+        sl_ = gen.slice(av)
+        xq = gen.ppf(q, numpy.full(q.shape, av))
+        e1 = float(numpy.abs(sl_.build_cdf()(xq) - q).max())
+        e2 = float(numpy.abs(sl_.build_ppf()(q) - xq).max())
+        if e1 > 1e-9 or e2 > 1e-9 * max(1., float(numpy.abs(x).max())):
+            bad.append('aux=%r (kx=%d, ky=%d): the cumulative of slice(aux) composed with ppf(., aux) misses q by %.3g on the quantile grid; slice ppf differs by %.3g' % (av, kx, ky, e1, e2))
     for av in list(aux) + [off + 0.37 * span]:
         u = numpy.linspace(0., 1., 201)
         p = gen.ppf(u, numpy.full(u.shape, av))
@@ -137,14 +153,14 @@ def o_aux(a):
         sl = pdf(x, av)
         c = numpy.concatenate([[0.], numpy.cumsum(0.5 * (sl[1:] + sl[:-1]) * numpy.diff(x))]); c /= c[-1]
         e = float(numpy.abs(numpy.interp(p, x, c) - u).max())
-        if e > (2e-2 if av not in aux else 5e-3) * max(1., (41. / nx) ** 2):       # the common quantile grid is that of the middle slice: tabulation accuracy, second order in the grid step
+        if e > (2e-2 if av not in aux else 5e-3) * max(1., (41. / nx) ** 2) and not a.get('coarse'):       # the common quantile grid is that of the middle slice: tabulation accuracy, second order in the grid step
             bad.append('aux=%r: |cdf(ppf(u)) − u| up to %.3g' % (av, e))
         # the slice the generator hands out is the density at that value of the auxiliary variable
         s1 = gen.slice(av)(x)
         if numpy.abs(s1 - sl).max() > (0.05 if av not in aux else 1e-9) * sl.max():
             bad.append('aux=%r: slice() differs from the density at that auxiliary value by %.3g' % (av, float(numpy.abs(s1 - sl).max())))
     try:
-        xUnivariateAuxGenerator(x, aux, lambda xx, aa: pdf(xx, aa) - 0.5 * scale, kx=1, ky=1)
+        xUnivariateAuxGenerator(x, aux, lambda xx, aa: pdf(xx, aa) - 0.5 * scale, kx=kx, ky=ky)
         bad.append('a bivariate density that is negative somewhere was accepted')
     except SystemExit:
         pass
@@ -187,6 +203,10 @@ def explore(chk, budget=1):
         if x[0] < 0. < x[-1] and lo < 0. < hi:
             bounds += [(0.0, None), (None, 0.0)]             # a bound exactly equal to 0.0
         run_oracle(chk, 'generator', dict(x=x.tolist(), y=y.tolist(), kind=kind, bounds=bounds), nontrivial=kind != 'smooth' or len(set(numpy.diff(x))) > 1)
+        if (x == numpy.round(x)).all():
+            run_oracle(chk, 'generator', dict(x=x.tolist(), y=y.tolist(), kind=kind, bounds=bounds[:1], dtype=str(g.choice(['int64', 'int32', 'float32']))))
+        elif i % 5 == 0:
+            run_oracle(chk, 'generator', dict(x=x.tolist(), y=y.tolist(), kind=kind, bounds=bounds[:1], dtype='float32'))
         # model correspondence
         us = numpy.concatenate([[0., 1.], g.uniform(0, 1, 12)])
         xs = numpy.concatenate([[x[0], x[-1]], g.uniform(x[0], x[-1], 8)])
@@ -202,7 +222,8 @@ def explore(chk, budget=1):
             yn = y.copy()
             yn[int(g.integers(0, len(y)))] = -float(g.choice([1e-9, 0.5]))
             run_oracle(chk, 'negative', dict(x=x.tolist(), y=yn.tolist(), k=int(g.choice([1, 3])) if len(x) > 3 else 1))
-    for extra in (dict(), dict(scale=1e-9), dict(scale=1e-12, table=True, nx=41, na=6), dict(offset=1.5e8, span=5000., na=11), dict(table=True, nx=41, na=6), dict(table=True, nx=41, na=41), dict(table=True, nx=24, na=24), dict(table=True, nx=16, na=16, offset=1.5e8, span=5000.)):
+    for extra in (dict(), dict(scale=1e-9), dict(scale=1e-12, table=True, nx=41, na=6), dict(offset=1.5e8, span=5000., na=11), dict(table=True, nx=41, na=6), dict(table=True, nx=41, na=41), dict(table=True, nx=24, na=24), dict(table=True, nx=16, na=16, offset=1.5e8, span=5000.),
+                  dict(kx=1, ky=3, coarse=True), dict(kx=2, ky=2, coarse=True), dict(kx=3, ky=3), dict(kx=3, ky=1, coarse=True), dict(kx=1, ky=1, coarse=True), dict(kx=2, ky=1)):
         run_oracle(chk, 'aux', dict(seed=int(g.integers(1, 10 ** 6)), **extra))
     replies = drv.run()
     for (x, y, us, xs, ip, ic, nx, ny), rep in zip(jobs, replies):
